@@ -39,30 +39,59 @@ NewHost == <<"b", "b">>
 NewCls == <<"b", "b">>
 NewKey == <<"b", "b", "b">>
 NewStr == Val("string", "", <<"b">>, <<>>)
-MutFields == {"ns", "host", "cls", "kbset", "kbadd"}
+(* the caller's in-place modifications of a path object.  An operation is *)
+(* an EFFECT on the value and a ROUTE by which python code achieves it:     *)
+(*   attribute setters    obj.namespace / .host / .classname = ..           *)
+(*                        obj.keybindings = {..}            ("kbrepl")      *)
+(*   item access on the path       obj[k] = v, del obj[k]   (".item")       *)
+(*   the keybindings dictionary    obj.keybindings[k] = v,                  *)
+(*                        del obj.keybindings[k]            (".dict")       *)
+(*                        obj.keybindings.update({k: v})    (".update")     *)
+(* The requirement only knows the effect: every route gives the same value, *)
+(* and every later observation (print, parse of the print) is a function of *)
+(* the current value.                                                       *)
+SetterOps == {"ns", "host", "cls", "kbrepl"}
+ItemOps == {"kbset.item", "kbadd.item", "kbdel.item"}
+DictOps == {"kbset.dict", "kbadd.dict", "kbdel.dict", "kbset.update",
+            "kbadd.update"}
+MutFields == SetterOps \cup ItemOps \cup DictOps
+OpEff(f) == CASE f \in {"kbset.item", "kbset.dict", "kbset.update"} -> "kbset"
+              [] f \in {"kbadd.item", "kbadd.dict", "kbadd.update"} -> "kbadd"
+              [] f \in {"kbdel.item", "kbdel.dict"} -> "kbdel"
+              [] OTHER -> f
 
 (* the reference that is followed: the first reference-typed keybinding;   *)
-(* "kbset" assigns to the first keybinding that is not a reference         *)
+(* "kbset" assigns to the first keybinding that is not a reference, "kbdel" *)
+(* deletes it (only if another keybinding remains: instance paths without   *)
+(* keys are outside the statement), "kbrepl" replaces all keybindings       *)
 FirstRef(kb) == LET is == {i \in DOMAIN kb : kb[i].v.t = "reference"}
                 IN IF is = {} THEN 0 ELSE MinOf(is)
 FirstPlain(kb) == LET is == {i \in DOMAIN kb : kb[i].v.t # "reference"}
                   IN IF is = {} THEN 0 ELSE MinOf(is)
 KeyIdx(kb, k) == LET is == {i \in DOMAIN kb : NameEq(kb[i].k, k)}
                  IN IF is = {} THEN 0 ELSE MinOf(is)
+DropIdx(q, i) == SubSeq(q, 1, i - 1) \o SubSeq(q, i + 1, Len(q))
 
 (* one object (tree node or heap cell: same record shape)                  *)
-CanMut(o, f) == CASE f \in {"ns", "host", "cls"} -> TRUE
-                  [] f = "kbset" -> o.kind = "inst" /\ FirstPlain(o.kb) # 0
-                  [] f = "kbadd" -> o.kind = "inst"
-                  [] OTHER -> FALSE
+CanMut(o, f) ==
+  CASE OpEff(f) \in {"ns", "host", "cls"} -> f \in MutFields
+    [] OpEff(f) = "kbset" -> o.kind = "inst" /\ FirstPlain(o.kb) # 0
+    [] OpEff(f) = "kbadd" -> o.kind = "inst"
+    [] OpEff(f) = "kbrepl" -> o.kind = "inst"
+    [] OpEff(f) = "kbdel" -> o.kind = "inst" /\ FirstPlain(o.kb) # 0
+                            /\ Len(o.kb) >= 2
+    [] OTHER -> FALSE
 MutHere(o, f) ==
-  CASE f = "ns" -> [o EXCEPT !.hasns = TRUE, !.ns = NewNs]
-    [] f = "host" -> [o EXCEPT !.hashost = TRUE, !.host = NewHost]
-    [] f = "cls" -> [o EXCEPT !.cls = NewCls]
-    [] f = "kbset" -> [o EXCEPT !.kb[FirstPlain(o.kb)].v = NewStr]
-    [] f = "kbadd" -> IF KeyIdx(o.kb, NewKey) # 0
-                      THEN [o EXCEPT !.kb[KeyIdx(o.kb, NewKey)].v = NewStr]
-                      ELSE [o EXCEPT !.kb = Append(@, KB(NewKey, NewStr))]
+  CASE OpEff(f) = "ns" -> [o EXCEPT !.hasns = TRUE, !.ns = NewNs]
+    [] OpEff(f) = "host" -> [o EXCEPT !.hashost = TRUE, !.host = NewHost]
+    [] OpEff(f) = "cls" -> [o EXCEPT !.cls = NewCls]
+    [] OpEff(f) = "kbset" -> [o EXCEPT !.kb[FirstPlain(o.kb)].v = NewStr]
+    [] OpEff(f) = "kbadd" ->
+         IF KeyIdx(o.kb, NewKey) # 0
+         THEN [o EXCEPT !.kb[KeyIdx(o.kb, NewKey)].v = NewStr]
+         ELSE [o EXCEPT !.kb = Append(@, KB(NewKey, NewStr))]
+    [] OpEff(f) = "kbrepl" -> [o EXCEPT !.kb = <<KB(NewKey, NewStr)>>]
+    [] OpEff(f) = "kbdel" -> [o EXCEPT !.kb = DropIdx(@, FirstPlain(o.kb))]
     [] OTHER -> o
 
 (* values (trees): the place d levels down                                 *)
@@ -76,12 +105,24 @@ TreeMut(p, d, f) ==
   IF d = 0 THEN MutHere(p, f)
   ELSE [p EXCEPT !.kb[FirstRef(p.kb)].v.r = <<TreeMut(@[1], d - 1, f)>>]
 
+(* an equal path: every name lower-cased, keybinding order reversed        *)
+(* (recursively); built by the observer as a NEW object                    *)
+RECURSIVE Twin(_)
+Twin(p) ==
+  Path(p.kind, p.hashost, LowerSeq(p.host), p.hasns, LowerSeq(p.ns),
+       LowerSeq(p.cls),
+       Reverse([i \in DOMAIN p.kb |->
+                  KB(LowerSeq(p.kb[i].k),
+                     IF p.kb[i].v.t = "reference"
+                     THEN Val("reference", "", <<>>, <<Twin(p.kb[i].v.r[1])>>)
+                     ELSE p.kb[i].v)]))
+
 (* ------------------------------ requirement ---------------------------- *)
 (* state: heap = the objects returned so far, as values; texts = the       *)
 (* registered texts [p: the path the text was printed from, fmt];          *)
 (* res[t] = value of the first Parse of text t (NoPath: not parsed yet)    *)
 HInit == [heap |-> <<>>, texts |-> <<>>, res |-> <<>>]
-HistKinds == {"htext", "hprint", "hparse", "hmutate"}
+HistKinds == {"htext", "hprint", "hparse", "hmutate", "hobs"}
 
 (* events:                                                                 *)
 (*  htext:   p, fmt, printed, text      a path of the universe is printed  *)
@@ -90,6 +131,15 @@ HistKinds == {"htext", "hprint", "hparse", "hmutate"}
 (*           of the result, heap = projection of ALL returned objects      *)
 (*           after the call (the new one last)                             *)
 (*  hmutate: h, d, f, heap              the caller modifies object h       *)
+(*  hobs:    h, fmt, printed, text, outcome, q, eq, p2, same               *)
+(*           OBSERVATION of object h at this point of the history (made    *)
+(*           before and after every modification): h is printed, the text  *)
+(*           is parsed (outcome, projection q of the result, python == of  *)
+(*           the result and h); for the canonical format a NEW path p2     *)
+(*           (built by the observer from the current value of h, names in  *)
+(*           other case, other key order) is printed too, same = the two   *)
+(*           texts are identical.  The laws of Fails for the CURRENT VALUE *)
+(*           s.heap[h]: printing is a function of the current value.       *)
 HFails(s, e) ==
   CASE e.kind = "htext" -> F("Printed", e.printed = "ok")
     [] e.kind = "hprint" ->
@@ -117,6 +167,18 @@ HFails(s, e) ==
          ELSE IF ~TreeHas(s.heap[e.h], e.d, e.f) THEN {"BadHistory"}
          ELSE F("Independent",
                 e.heap = [s.heap EXCEPT ![e.h] = TreeMut(@, e.d, e.f)])
+    [] e.kind = "hobs" ->
+         IF e.h \notin DOMAIN s.heap THEN {"BadHistory"}
+         ELSE IF e.printed # "ok" THEN {"Printed"}
+         ELSE LET cur == s.heap[e.h]
+              IN F("ParserTotal", e.outcome \in {"path", "ValueError"})
+                 \cup F("PrintedAccepted", e.outcome = "path")
+                 \cup (IF e.fmt \in RoundTripFmts /\ e.outcome = "path"
+                       THEN F("RoundTrip", PathApprox(cur, e.q))
+                            \cup F("RoundTripEq", Lossless(cur) => e.eq)
+                       ELSE {})
+                 \cup (IF e.fmt = "canonical" /\ PathSame(cur, e.p2)
+                       THEN F("CanonicalEqual", e.same) ELSE {})
     [] OTHER -> Fails(0, e)
 
 HApply(s, e) ==
@@ -137,7 +199,9 @@ HApply(s, e) ==
 (* address of the nested object (r = <<address>>); cache = {[key, addr]}   *)
 (* with key = <<kind, text>>; roots[h] = address of the h-th returned      *)
 (* object.                                                                 *)
-IState0 == [cells |-> <<>>, cache |-> {}, roots |-> <<>>]
+(* pcache = {[addr, val]}: the canonical text cached in the object at addr *)
+(* (kept as the VALUE it was printed from: the text is PrintU of it).      *)
+IState0 == [cells |-> <<>>, cache |-> {}, roots |-> <<>>, pcache |-> {}]
 
 CacheHit(st, key) == \E c \in st.cache : c.key = key
 CacheGet(st, key) == (CHOOSE c \in st.cache : c.key = key).addr
@@ -207,6 +271,40 @@ INav(cells, a, d) ==
 IMutOk(st, h, d, f) ==
   h \in DOMAIN st.roots /\ INavOk(st.cells, st.roots[h], d) /\
   CanMut(st.cells[INav(st.cells, st.roots[h], d)], f)
-IMutate(st, h, d, f) ==
-  [st EXCEPT !.cells[INav(st.cells, st.roots[h], d)] = MutHere(@, f)]
+(* V.pcache = "setters": only the setters and the item access of the path  *)
+(* object itself clear its cached canonical text                           *)
+IMutate(V, st, h, d, f) ==
+  LET a == INav(st.cells, st.roots[h], d)
+  IN [st EXCEPT !.cells[a] = MutHere(@, f),
+                !.pcache = IF f \in SetterOps \cup ItemOps
+                           THEN {c \in @ : c.addr # a} ELSE @]
+
+(* obj.to_wbem_uri(fmt) of the object at address a.  With V.pcache # "none" *)
+(* the canonical text of every instance path object visited (the object    *)
+(* and, recursively, the referenced objects: the same method prints them)  *)
+(* is taken from / stored in that object's cache.                          *)
+PHit(V, st, a) == V.pcache # "none" /\ \E c \in st.pcache : c.addr = a
+PGet(st, a) == (CHOOSE c \in st.pcache : c.addr = a).val
+RefIdx(o) == {i \in DOMAIN o.kb : o.kb[i].v.t = "reference"}
+RECURSIVE SeenVal(_, _, _)
+SeenVal(V, st, a) ==             \* the value the canonical printer prints
+  IF PHit(V, st, a) THEN PGet(st, a)
+  ELSE LET o == st.cells[a]
+       IN [o EXCEPT !.kb = [i \in DOMAIN o.kb |->
+             IF i \in RefIdx(o)
+             THEN KB(o.kb[i].k, Val("reference", "", <<>>,
+                                    <<SeenVal(V, st, o.kb[i].v.r[1])>>))
+             ELSE o.kb[i]]]
+RECURSIVE Visited(_, _, _)
+Visited(V, st, a) ==             \* objects that compute (and store) a text
+  IF PHit(V, st, a) \/ st.cells[a].kind # "inst" THEN {}
+  ELSE {a} \cup UNION {Visited(V, st, st.cells[a].kb[i].v.r[1]) :
+                         i \in RefIdx(st.cells[a])}
+IPrint(V, st, a, fmt) ==
+  IF fmt = "canonical" /\ V.pcache # "none"
+  THEN [text |-> PrintU(V, SeenVal(V, st, a), fmt),
+        st |-> [st EXCEPT !.pcache = @ \cup
+                  {[addr |-> b, val |-> SeenVal(V, st, b)] :
+                     b \in Visited(V, st, a)}]]
+  ELSE [text |-> PrintU(V, Deref(st.cells, a), fmt), st |-> st]
 =============================================================================
